@@ -139,6 +139,8 @@ def seqStep (E : EOps) (st : Option (Res (List Nat × List Nat))) (op : String) 
     | "dbl" => some (.ok (E.dbl acc, y))
     | "sq" => some (.ok (E.sq acc, y))
     | "conj" => some (.ok (E.conj acc, y))
+    | "frob" => some (.ok (E.conj acc, y))
+    | "mb" => some (.ok (E.mulBase acc (y.headD 0), y))
     | "swap" => some (.ok (y, acc))
     | "inv" => some ((E.inv acc).map (fun r => (r, y)))
     | "div" => some ((E.div acc y).map (fun r => (r, y)))
